@@ -12,10 +12,13 @@
    so `j not in basis_set` is modelled by a membership test on `basis`.
    Every value is kept in lowest terms with Qred (a no-op for Qeq; it only keeps vm_compute fast).
 
-   The model follows the tree after commit 5868332 ("fix: simplex reports MAX_ITER when phase 1
-   hits the limit"): _phase1 answers MAX_ITER when its inner _phase2 run was cut short with the
-   auxiliary objective still < -eps, INFEASIBLE only when that run ended by itself. *)
+   The model follows the tree after commits 5868332 ("simplex reports MAX_ITER when phase 1 hits the
+   limit"), b6b6dd1 (phase-1 verdict threshold  eps * max(1, total initial infeasibility)  instead of
+   an absolute eps) and 0767acf (_extract reports c . x of the returned point): _phase1 answers
+   MAX_ITER when its inner _phase2 run was cut short with the auxiliary objective still below minus
+   that threshold, INFEASIBLE only when that run ended by itself. *)
 From Coq Require Import List QArith Qabs Bool Arith.
+From SV Require Import C03.LPSpec.   (* dot: sum(cj * xj for cj, xj in zip(c, solution)) *)
 Import ListNotations.
 Open Scope Q_scope.
 
@@ -237,8 +240,10 @@ Definition phase1 (eps : Q) (max_iter : nat) (m n : nat) (T : tableau) (basis : 
   | _ =>
       let width := length (fst obj1) in                            (* n_cols - 1 *)
       let aux := aux_obj_loop arts basis1 0 rows1 (aux_obj0 width arts) in
+      (* tolerance = eps * max(1.0, -matrix[-1][-1])   ("minus the total infeasibility") *)
+      let tolerance := eps * (if Qltb 1 (- snd aux) then - snd aux else 1) in
       let '(st, iters, T2, basis2, piv2) := phase2 eps max_iter 0 (mkT rows1 aux) basis1 [] in
-      if Qltb (snd (t_obj T2)) (- eps) then
+      if Qltb (snd (t_obj T2)) (- tolerance) then
         (* "Artificials still positive: infeasible only if phase 1 was not cut short" *)
         ((match st with MAX_ITER => MAX_ITER | _ => INFEASIBLE end), iters, T2, basis2, piv2)
       else
@@ -249,7 +254,7 @@ Definition phase1 (eps : Q) (max_iter : nat) (m n : nat) (T : tableau) (basis : 
         (OPTIMAL, iters, mkT rows4 obj4, basis3, piv3)
   end.
 
-(* ---- def _extract(matrix, basis, m, n, status, iters, minimize) *)
+(* ---- def _extract(matrix, basis, m, n, status, iters, c) *)
 Fixpoint extract_loop (n : nat) (basis : list nat) (i : nat) (rows : list row) (sol : list Q) : list Q :=
   match rows with
   | [] => sol
@@ -269,10 +274,10 @@ Record lp_result := mkR {
 }.
 
 Definition extract (T : tableau) (basis : list nat) (n : nat) (st : lp_status) (iters : nat)
-           (minimize : bool) (piv : list (nat * nat)) : lp_result :=
+           (c : list Q) (piv : list (nat * nat)) : lp_result :=
   let sol := extract_loop n basis 0 (t_rows T) (zeros n) in
-  let obj := - snd (t_obj T) in
-  mkR st sol (Qred (if minimize then obj else - obj)) iters piv T basis.
+  (* obj = sum(cj * xj for cj, xj in zip(c, solution)): the user's c, also for maximize *)
+  mkR st sol (Qred (dot c sol)) iters piv T basis.
 
 (* ---- def solve_lp(c, A, b, *, minimize=True, eps=1e-10, max_iter=100_000) *)
 Definition init_tableau (minimize : bool) (c : list Q) (A : list (list Q)) (b : list Q) : tableau :=
@@ -292,12 +297,12 @@ Definition solve_lp (eps : Q) (minimize : bool) (max_iter : nat)
     match st with
     | OPTIMAL =>
         let '(st2, iters2, T2, basis2, piv2) := phase2 eps (max_iter - iters) 0 T1 basis1 piv1 in
-        extract T2 basis2 n st2 (iters + iters2) minimize piv2
+        extract T2 basis2 n st2 (iters + iters2) c piv2
     | _ => mkR st (zeros n) 0 iters piv1 T1 basis1       (* INFEASIBLE or MAX_ITER; objective inf *)
     end
   else
     let '(st2, iters2, T2, basis2, piv2) := phase2 eps max_iter 0 T0 basis0 [] in
-    extract T2 basis2 n st2 iters2 minimize piv2.
+    extract T2 basis2 n st2 iters2 c piv2.
 
 (* check_matrix_dims: raises ValueError unless this holds *)
 Definition valid_lp (c : list Q) (A : list (list Q)) (b : list Q) : bool :=
